@@ -73,7 +73,7 @@ def rule_allproviders(ctx: Ctx):
     n_many = 0
     for p in ctx.paths(tk, inline=None, exc_edges="none", unroll=2, loops_for_comps=True):
         evs = p.events
-        its = [e for e in evs if e.kind == "iter" and e.x.get("loop") == "for"]
+        its = [e for e in evs if e.kind == "iter" and e.x.get("loop") == "for" and xshow(e.term, evs).startswith("self.search_name(")]
         apps = [e for e in p.calls() if isinstance(e.term.func, ast.Attribute) and e.term.func.attr == "append"]
         rep.check(len(apps) == len(its), "C12.allproviders", tk.loc(), "every provider's callable of a guard name is collected", tk.key,
                   f"{len(apps)} collected for {len(its)} providers")
@@ -89,7 +89,10 @@ def rule_allproviders(ctx: Ctx):
         v = expand1(p.value, evs)
         if len(its) >= 2:
             n_many += 1
-            ok = isinstance(v, ast.Call) and show(v.func) in ("reduce", "functools.reduce") and show(v.args[0]) == "custom_and"
+            from ..shapes import fold_of
+
+            fo = fold_of(p.value, evs)
+            ok = fo is not None and fo[0] == "custom_and" and fo[1] == lst and (fo[2] == -1 or fo[2] >= 2)
             rep.check(ok, "C12.allproviders", tk.loc(), "a guard name provided by several objects must hold on all of them (conjunction)", tk.key,
                       f"return {show(v)}")
         elif len(its) == 0:
@@ -193,7 +196,7 @@ def rule_samepath(ctx: Ctx, rule: str = "C12.same-path"):
     rep = ctx.rep
     g = callgraph(ctx)
     al = ctx.fn("StateMachine._add_listener")
-    callers = {c.qualname for c, _, _ in g.callers(al)}
+    callers = {c.qualname for c in g.baseline_callers(al, ctx.is_new)}
     rep.check(callers == {"StateMachine._register_callbacks", "StateMachine.add_listener"}, rule, al.loc(),
               "constructor-time and late providers are attached through the same _add_listener", al.key, f"callers: {sorted(callers)}")
     for p in ctx.paths(al, inline=None, exc_edges="none", unroll=1):
@@ -303,29 +306,37 @@ def rule_dedup(ctx: Ctx, rule: str = "C12.dedup"):
     # the key of a composed guard is built from its operands' keys (which carry the provider ids), never from names
     sp = ctx.p.module("statemachine/spec_parser.py")
     n_c = 0
+    from ..shapes import closure_models
+
+    def models_of(f, bindings=None, depth=0):
+        out = []
+        try:
+            cms = closure_models(ctx, f, bindings=bindings)
+        except AnalysisError:
+            return out
+        for m in cms:
+            out.append((f, m))
+            if m.obj.startswith("$def:") and depth < 2:
+                out.extend(models_of(m.fn, m.bindings, depth + 1))  # a factory of factories (comparison operators)
+        return out
+
     for f in sp.all_functions:
-        if not [g for g in sp.all_functions if g.parent is f] or ctx.is_new(f):
-            continue  # only builders (functions that define a closure)
-        for p in ctx.paths(f, inline=None, exc_edges="none"):
-            for e in p.of("store"):
-                if e.x.get("attr") != "unique_key":
-                    continue
-                n_c += 1
-                v = expand(e.x["value"], p.events)
-                txt = show(v)
-                params = [a for a in f.params]
-                operand_keys = [f"getattr({a}, 'unique_key', '')" for a in params]
-                uses = any(k_ in txt for k_ in operand_keys) or (
-                    isinstance(v, ast.Call) and show(v.func) == "_unique_key" and {show(a) for a in v.args[:2]} <= set(params) | set(
-                        g_.params[i_] for g_ in sp.all_functions if g_.parent is f for i_ in range(len(g_.params))) | set(
-                        x for g_ in sp.all_functions if g_.parent is f for x in g_.params) and len(v.args) >= 2)
-                # operands may be parameters of the builder or of an intermediate closure (comparison factory)
-                if not uses and isinstance(v, ast.Call) and show(v.func) == "_unique_key" and len(v.args) >= 2:
-                    uses = all(isinstance(a, ast.Name) for a in v.args[:2])
-                const_only = f.qualname.startswith("build_constant")
-                rep.check(uses or const_only, rule, e.loc(), "the de-duplication key of a composed guard is derived from its operands' keys "
-                          "(provider identity is kept)", f.key, norm_stmt(e.node), value=txt[:160])
-            break
+        if f.parent is not None or f.cls is not None or ctx.is_new(f) or isinstance(f.node, ast.Lambda):
+            continue
+        for owner, m in models_of(f):
+            if "unique_key" not in m.attrs:
+                continue
+            val, e = m.attrs["unique_key"]
+            n_c += 1
+            v = expand(val, m.events)
+            txt = show(v)
+            scope_params = set(owner.params) | set(f.params)
+            operand_keys = [f"getattr({a}, 'unique_key', '')" for a in scope_params]
+            uses = any(k_ in txt for k_ in operand_keys) or (
+                isinstance(v, ast.Call) and show(v.func) == "_unique_key" and len(v.args) >= 2 and all(isinstance(a, ast.Name) for a in v.args[:2]))
+            const_only = f.qualname.startswith("build_constant")
+            rep.check(uses or const_only, rule, e.loc(), "the de-duplication key of a composed guard is derived from its operands' keys "
+                      "(provider identity is kept)", owner.key, norm_stmt(e.node), value=txt[:160])
     rep.floor(rule, "unique_key assignments in spec_parser builders", n_c, 5)
     # a provider's key must be the same whether it is attached alone or together with others
     tk = ctx.fn("Listeners._take_callback")
